@@ -198,8 +198,16 @@ def run_case(ctx, mr, case):
                 what = 'sdenc'
             else:
                 P.write_sdtitle_dir(fsobj, conts, title_id=tid, present=present, subdir='')
+                how = case.get('how') or (rng.choice(['fs', 'path', 'symlink']) if case['backend'] == 'os' else 'fs')
+                ctx.stat('sd_open_' + how)
+                if how == 'symlink':
+                    # the tmd entry of the title directory is a link to a tmd kept elsewhere: the contents are looked up beside the
+                    # path that was given, not beside the link's target
+                    os.makedirs(os.path.join(tmpdir, 'elsewhere'))
+                    os.rename(os.path.join(tmpdir, '00000000.tmd'), os.path.join(tmpdir, 'elsewhere', 'real.tmd'))
+                    os.symlink(os.path.join('elsewhere', 'real.tmd'), os.path.join(tmpdir, '00000000.tmd'))
                 try:
-                    r = SDTitleReader('00000000.tmd', fs=fsobj)
+                    r = SDTitleReader('00000000.tmd', fs=fsobj) if how == 'fs' else SDTitleReader(os.path.join(tmpdir, '00000000.tmd'))
                 except Exception as ex:
                     ctx.diff('oracle', 'sd-open-raises', case, 'a reader', pyenv.errname(ex) + ': ' + str(ex)[:80], 'SD title directory rejected')
                     return
@@ -234,7 +242,11 @@ def run_cases(ctx, cases):
 
 def run(ctx):
     proof = prove('C10', [], ['C10_props'], static_deps=['Proofs/NcsdProofs.v'])
-    run_cases(ctx, (gen_case(ctx.rng) for _ in range(ctx.n(60, 1500))))
+    cases = [gen_case(ctx.rng) for _ in range(ctx.n(60, 1500))]
+    # directed: every way of opening an installed title from an OS directory
+    for how in ('path', 'symlink'):
+        cases.append(dict(gen_case(ctx.rng), pack='sd', backend='os', how=how))
+    run_cases(ctx, cases)
 
     def search():
         c2 = Ctx('C10', 'thorough', ctx.seed + 1)
